@@ -24,6 +24,10 @@ pub struct GenOpts {
     pub loc_types: bool,
     pub payload_tokens: bool,
     pub bare_terminals: bool,
+    /// chance (of 256) of inserting another @L/@R into an alternative
+    pub marker_chance: u32,
+    /// weight of the empty alternative shape
+    pub eps_weight: u32,
 }
 
 impl GenOpts {
@@ -45,6 +49,8 @@ impl GenOpts {
             loc_types: true,
             payload_tokens: true,
             bare_terminals: true,
+            marker_chance: 36,
+            eps_weight: 14,
         }
     }
     pub fn plain() -> GenOpts {
@@ -65,6 +71,8 @@ impl GenOpts {
             loc_types: false,
             payload_tokens: false,
             bare_terminals: false,
+            marker_chance: 0,
+            eps_weight: 14,
         }
     }
 }
@@ -239,7 +247,7 @@ impl<'t, 'a> G<'t, 'a> {
     fn alt_syms(&mut self, ni: usize, ai: usize, declared_only: bool) -> Vec<SymKind> {
         let nterms = self.spec.terms.len();
         let lead = SymKind::T((ai + ni * 2 + self.t.below(2)) % nterms);
-        let shape = self.t.weighted(&[40, 50, 28, 22, 26, 14, 60]);
+        let shape = self.t.weighted(&[40, 50, 28, 22, 26, self.o.eps_weight, 60]);
         let me = SymKind::N(ni);
         match shape {
             0 => vec![lead],
@@ -272,7 +280,7 @@ impl<'t, 'a> G<'t, 'a> {
         if !self.o.markers {
             return;
         }
-        while self.t.chance(36) && syms.len() < 6 {
+        while self.t.chance(self.o.marker_chance) && syms.len() < 6 {
             let pos = self.t.below(syms.len() + 1);
             let m = if self.t.chance(128) { SymKind::L } else { SymKind::R };
             syms.insert(pos, m);
@@ -797,4 +805,213 @@ pub fn builtin_text(t: &mut Tape, spec: &GSpec, term_of_core: &[usize], input: &
         text.push_str(&ws(t, i + 1 == input.len()));
     }
     (text, toks)
+}
+
+// ------------------------------------------------------------- G-cfg (C03)
+
+/// Context-free skeleton with unit types (no type / action error possible):
+/// random alternatives plus template families that random sampling would not
+/// reach (LR(1)-not-LALR(1), LR(2), ambiguous, nullable chains, unreachable and
+/// unproductive nonterminals), decorated with `? * +`, groups and `#[inline]`.
+pub fn gen_cfg(t: &mut Tape) -> (GSpec, Vec<&'static str>) {
+    let mut tags = vec![];
+    let nterms = 2 + t.below(5);
+    let terms: Vec<TermSpec> = (0..nterms as u32).map(|k| extern_term(k, false)).collect();
+    let mut spec = GSpec { lexer: Lexer::Extern { loc: LocTy::Usize }, terms, nts: vec![], declare_error: true };
+    let n_nts = 1 + t.below(6);
+    let unit_nt = |name: String, public: bool| NtSpec {
+        name,
+        public,
+        inline: false,
+        ty: Some(Ty::Unit),
+        alts: vec![],
+        cfg: vec![],
+        params: vec![],
+    };
+    for i in 0..n_nts {
+        spec.nts.push(unit_nt(format!("N{i}"), i == 0));
+    }
+    let decorated = t.chance(90);
+    if decorated {
+        tags.push("decorated(? * + groups)");
+    }
+    for ni in 0..n_nts {
+        let n_alts = 1 + t.below(4);
+        for ai in 0..n_alts {
+            let shape = t.weighted(&[30, 50, 30, 25, 25, 22, 70]);
+            let lead = SymKind::T((ai + ni + t.below(2)) % nterms);
+            let rnd = |t: &mut Tape| -> SymKind {
+                if t.chance(128) {
+                    SymKind::N(t.below(n_nts))
+                } else {
+                    SymKind::T(t.below(nterms))
+                }
+            };
+            let mut kinds: Vec<SymKind> = match shape {
+                0 => vec![lead],
+                1 => {
+                    let x = rnd(t);
+                    let mut v = vec![lead, x];
+                    if t.chance(100) {
+                        v.push(SymKind::T(t.below(nterms)));
+                    }
+                    v
+                }
+                2 => vec![SymKind::N(ni), SymKind::T(t.below(nterms)), rnd(t)],
+                3 => vec![rnd(t), SymKind::T(t.below(nterms)), SymKind::N(ni)],
+                4 => vec![lead, SymKind::N(ni), SymKind::T(t.below(nterms))],
+                5 => vec![],
+                _ => {
+                    let n = 1 + t.below(4);
+                    (0..n).map(|_| rnd(t)).collect()
+                }
+            };
+            if decorated {
+                for k in kinds.iter_mut() {
+                    if t.chance(40) {
+                        let op = *t.pick(&[RepOp::Question, RepOp::Star, RepOp::Plus]);
+                        *k = SymKind::Rep(Box::new(k.clone()), op);
+                    } else if t.chance(20) {
+                        let extra = rnd(t);
+                        *k = SymKind::Group(vec![SymSpec::plain(k.clone()), SymSpec::plain(extra)]);
+                    }
+                }
+            }
+            let act = if kinds.is_empty() { Act::UnitLit } else { Act::Default };
+            spec.nts[ni].alts.push(AltSpec::new(kinds.into_iter().map(SymSpec::plain).collect(), act));
+        }
+    }
+    // template families, spliced in as extra nonterminals referenced from N0
+    // (or made `pub` on their own)
+    let tpl = t.weighted(&[120, 40, 18, 14, 14, 14, 16, 20]);
+    let tm = |i: usize| SymKind::T(i % nterms);
+    let base = spec.nts.len();
+    let mut add = |spec: &mut GSpec, name: &str, alts: Vec<Vec<SymKind>>| -> usize {
+        let mut nt = unit_nt(name.to_string(), false);
+        for a in alts {
+            let act = if a.is_empty() { Act::UnitLit } else { Act::Default };
+            nt.alts.push(AltSpec::new(a.into_iter().map(SymSpec::plain).collect(), act));
+        }
+        spec.nts.push(nt);
+        spec.nts.len() - 1
+    };
+    let mut root: Option<usize> = None;
+    match tpl {
+        1 if nterms >= 5 => {
+            // LR(1) but not LALR(1): S = a A d | b B d | a B e | b A e; A = c; B = c
+            tags.push("template:lr1-not-lalr");
+            let o = t.below(nterms);
+            let (a, b, c, d, e) = (tm(o), tm(o + 1), tm(o + 2), tm(o + 3), tm(o + 4));
+            let inner: Vec<SymKind> = if t.chance(100) { vec![c.clone(), c.clone()] } else { vec![c.clone()] };
+            let an = add(&mut spec, "TA", vec![inner.clone()]);
+            let bn = add(&mut spec, "TB", vec![inner]);
+            let s = add(
+                &mut spec,
+                "TS",
+                vec![
+                    vec![a.clone(), SymKind::N(an), d.clone()],
+                    vec![b.clone(), SymKind::N(bn), d],
+                    vec![a, SymKind::N(bn), e.clone()],
+                    vec![b, SymKind::N(an), e],
+                ],
+            );
+            root = Some(s);
+        }
+        2 if nterms >= 3 => {
+            // LR(2): S = A x y | B x z; A = w; B = w
+            tags.push("template:lr2");
+            let (x, y, z) = (tm(0), tm(1), tm(2));
+            let an = add(&mut spec, "TA", vec![vec![y.clone()]]);
+            let bn = add(&mut spec, "TB", vec![vec![y.clone()]]);
+            let s = add(
+                &mut spec,
+                "TS",
+                vec![vec![SymKind::N(an), x.clone(), y], vec![SymKind::N(bn), x, z]],
+            );
+            root = Some(s);
+        }
+        3 => {
+            // ambiguous expression
+            tags.push("template:ambiguous-expr");
+            let s = base;
+            add(&mut spec, "TS", vec![vec![SymKind::N(s), tm(0), SymKind::N(s)], vec![tm(1)]]);
+            root = Some(s);
+        }
+        4 if nterms >= 3 => {
+            // dangling else
+            tags.push("template:dangling-else");
+            let s = base;
+            add(
+                &mut spec,
+                "TS",
+                vec![
+                    vec![tm(0), SymKind::N(s)],
+                    vec![tm(0), SymKind::N(s), tm(1), SymKind::N(s)],
+                    vec![tm(2)],
+                ],
+            );
+            root = Some(s);
+        }
+        5 => {
+            // nullable chain: S = A B c; A = eps | a; B = eps | b
+            tags.push("template:nullable-chain");
+            let an = add(&mut spec, "TA", vec![vec![], vec![tm(0)]]);
+            let bn = add(&mut spec, "TB", vec![vec![], vec![tm(1)]]);
+            let s = add(&mut spec, "TS", vec![vec![SymKind::N(an), SymKind::N(bn), tm(2)], vec![SymKind::N(bn), SymKind::N(an)]]);
+            root = Some(s);
+        }
+        6 => {
+            // unproductive nonterminals (F12 shapes live here)
+            tags.push("template:unproductive");
+            let u = base;
+            add(&mut spec, "TU", vec![vec![SymKind::N(u + 1), SymKind::N(u)]]);
+            add(&mut spec, "TV", vec![vec![], vec![SymKind::N(u), tm(0), tm(1)]]);
+            root = Some(u);
+        }
+        7 if nterms >= 4 => {
+            // bracket family sharing an inner list: lookaheads merge under LALR
+            tags.push("template:bracket-family");
+            let l = add(&mut spec, "TL", vec![vec![tm(0)], vec![SymKind::N(base), tm(1), tm(0)]]);
+            let s = add(
+                &mut spec,
+                "TS",
+                vec![vec![tm(2), SymKind::N(l), tm(2)], vec![tm(3), SymKind::N(l), tm(3)], vec![tm(2), SymKind::N(l), tm(1), tm(3)]],
+            );
+            root = Some(s);
+        }
+        _ => {}
+    }
+    if let Some(r) = root {
+        match t.below(3) {
+            0 => spec.nts[r].public = true,
+            1 => {
+                // referenced from N0 in a random context
+                let ctx = vec![SymSpec::plain(tm(t.below(nterms))), SymSpec::plain(SymKind::N(r))];
+                spec.nts[0].alts.push(AltSpec::new(ctx, Act::Default));
+            }
+            _ => {
+                let ctx = vec![SymSpec::plain(SymKind::N(r)), SymSpec::plain(tm(t.below(nterms)))];
+                spec.nts[0].alts.push(AltSpec::new(ctx, Act::Default));
+                if t.chance(100) {
+                    spec.nts[r].public = true;
+                }
+            }
+        }
+    }
+    // pub / inline flags on the random part
+    let reach = reach_matrix(&spec);
+    for ni in 1..n_nts {
+        if !reach[ni][ni] && t.chance(50) {
+            spec.nts[ni].inline = true;
+            if !tags.contains(&"inline") {
+                tags.push("inline");
+            }
+        } else if t.chance(40) {
+            spec.nts[ni].public = true;
+            if !tags.contains(&"multi-pub") {
+                tags.push("multi-pub");
+            }
+        }
+    }
+    (spec, tags)
 }
